@@ -223,7 +223,7 @@ def rules(P, R, prefix="C17"):
                 interval(e, 0, MAX_S, probs)
                 R.judge(not probs, prefix + ".O2", key(qt, "no overflow for 0<=S<2^31" + tag), qt.sp,
                         "every typed op of %s stays within its type for S in [0, 2^31-1]" % show_expr(e), "; ".join(probs))
-                forms[C] = show_expr(e)
+                forms[C] = (show_expr(e), e, L)
             except Undecidable as u:
                 R.fail(prefix + ".O1", key(qt, "threshold == floor(2S/3)+1" + tag), qt.sp,
                        "undecidable-shape: %s" % u, reason="undecidable-shape")
@@ -248,8 +248,13 @@ def rules(P, R, prefix="C17"):
         # O5 sibling agreement
         if len(forms) == 2:
             vals = list(forms.values())
-            R.judge(vals[0] == vals[1], prefix + ".O5", "both committees compute the same expression" + tag, "",
-                    vals[0], "consensus computes %s, mempool computes %s" % (vals[0], vals[1]))
+            (s1, e1, L1), (s2, e2, L2) = vals
+            # same FUNCTION of the total stake (not the same spelling): both are quasi-linear, so agreement on two common
+            # periods (values and increments) is agreement everywhere
+            LL = L1 * L2
+            same = all(evaluate(e1, S) == evaluate(e2, S) for S in range(0, 2 * LL + 4))
+            R.judge(same, prefix + ".O5", "both committees compute the same threshold function" + tag, "",
+                    "%s == %s on two common periods" % (s1, s2), "consensus computes %s, mempool computes %s: they differ for some total stake" % (s1, s2))
         st1 = prog.aliases.get("consensus::config::Stake")
         st2 = prog.aliases.get("mempool::config::Stake")
         R.judge(st1 == st2 == "u32", prefix + ".O5", "Stake alias is u32 in both crates" + tag, "", "u32",
